@@ -444,6 +444,9 @@ def walk_wildcard(
     yielded_nodes = set()
     for template in node_template:
         type_matcher = template if isinstance(template, type) else type(template)
+        if isinstance(template, Wildcard):
+            # A wildcard is no node type, any node may match it
+            type_matcher = ast.AST
         nodes = itertools.chain.from_iterable(
             children
             for child_type, children in types_in_scope.items()
